@@ -56,16 +56,38 @@ pub fn ind_of(scheme: &str, secret: &[u8]) -> IndKey {
     }
 }
 
+/// addresses from the special-purpose registries (a library might treat them specially)
+pub const SPECIAL_IP4: [[u8; 4]; 18] = [
+    [0, 0, 0, 0], [255, 255, 255, 255], [127, 0, 0, 1], [10, 0, 0, 1], [100, 64, 0, 1], [169, 254, 1, 1], [172, 16, 0, 1],
+    [192, 0, 0, 1], [192, 0, 2, 1], [192, 88, 99, 1], [192, 168, 0, 1], [198, 18, 0, 1], [198, 51, 100, 1], [203, 0, 113, 1],
+    [224, 0, 0, 1], [240, 0, 0, 1], [1, 1, 1, 1], [0, 0, 0, 1],
+];
+pub const SPECIAL_IP6: [[u8; 16]; 12] = [
+    [0; 16],
+    [0, 0, 0, 0, 0, 0, 0, 0, 0, 0, 0, 0, 0, 0, 0, 1],
+    [0xfe, 0x80, 0, 0, 0, 0, 0, 0, 0, 0, 0, 0, 0, 0, 0, 1],
+    [0xfc, 0, 0, 0, 0, 0, 0, 0, 0, 0, 0, 0, 0, 0, 0, 1],
+    [0xfd, 0x12, 0x34, 0, 0, 0, 0, 0, 0, 0, 0, 0, 0, 0, 0, 1],
+    [0xff, 0x02, 0, 0, 0, 0, 0, 0, 0, 0, 0, 0, 0, 0, 0, 1],
+    [0x20, 0x01, 0x0d, 0xb8, 0, 0, 0, 0, 0, 0, 0, 0, 0, 0, 0, 1],
+    [0x20, 0x01, 0, 0, 0, 0, 0, 0, 0, 0, 0, 0, 0, 0, 0, 1],
+    [0x20, 0x02, 0xc0, 0, 0x02, 0x01, 0, 0, 0, 0, 0, 0, 0, 0, 0, 1],
+    [0, 0x64, 0xff, 0x9b, 0, 0, 0, 0, 0, 0, 0, 0, 0xc0, 0, 0x02, 0x01],
+    [0x01, 0, 0, 0, 0, 0, 0, 0, 0, 0, 0, 0, 0, 0, 0, 1],
+    [0xff; 16],
+];
+
 pub fn rand_ip4(rng: &mut Rng) -> Vec<u8> {
     match rng.below(5) {
-        0 => vec![0, 0, 0, 0],
-        1 => vec![255, 255, 255, 255],
-        2 => vec![127, 0, 0, 1],
+        0 | 1 => rng.pick(&SPECIAL_IP4).to_vec(),
         _ => rng.bytes(4),
     }
 }
 
 pub fn rand_ip6(rng: &mut Rng) -> Vec<u8> {
+    if rng.chance(1, 4) {
+        return rng.pick(&SPECIAL_IP6).to_vec();
+    }
     match rng.below(8) {
         5 => {
             // IPv4-mapped ::ffff:a.b.c.d
@@ -184,7 +206,11 @@ fn rand_plain(rng: &mut Rng) -> Vec<u8> {
 }
 
 fn ascii_word(rng: &mut Rng) -> Vec<u8> {
-    let n = rng.below(8) as usize;
+    let n = if rng.chance(1, 8) {
+        *rng.pick(&[31usize, 32, 33, 55, 56, 63, 64, 65, 100, 128, 200])
+    } else {
+        rng.below(8) as usize
+    };
     (0..n).map(|_| rng.range(0x21, 0x7e) as u8).collect()
 }
 
@@ -1127,6 +1153,69 @@ pub fn gen_acc(schemes: &[&str], rng: &mut Rng, thorough: bool, cases: &mut Vec<
             ));
             cases.push(c);
         }
+        // special-purpose addresses: builder, setters, socket setters; accessors after each
+        for (i, a) in SPECIAL_IP4.iter().enumerate() {
+            let mut c = Case::new("acc", scheme, id, "special-address");
+            id += 1;
+            c.keys = keys.clone();
+            c.lines.push(format!("init kind=build calls=ip4:{};udp4:9;tcp4:{} signer=0", hx(a), 30303 + i));
+            c.lines.push("step op=redecode".into());
+            let b = SPECIAL_IP4[(i + 5) % SPECIAL_IP4.len()];
+            c.lines.push(with_signer(&format!("step op=set_ip ip={}", hx(&b)), 0, false));
+            c.lines.push(with_signer(&format!("step op=set_tcp_socket ip={} port=1", hx(a)), 0, false));
+            cases.push(c);
+        }
+        for (i, a) in SPECIAL_IP6.iter().enumerate() {
+            let mut c = Case::new("acc", scheme, id, "special-address");
+            id += 1;
+            c.keys = keys.clone();
+            c.lines.push(format!("init kind=build calls=ip6:{};udp6:9;tcp6:{} signer=0", hx(a), 30303 + i));
+            c.lines.push("step op=redecode".into());
+            let b = SPECIAL_IP6[(i + 5) % SPECIAL_IP6.len()];
+            c.lines.push(with_signer(&format!("step op=set_ip ip={}", hx(&b)), 0, false));
+            c.lines.push(with_signer(&format!("step op=set_udp_socket ip={} port=1", hx(a)), 0, false));
+            cases.push(c);
+        }
+        // strings and keys of every length class (one- and two-byte headers, around 32 / 64 / 128)
+        for len in [8usize, 31, 32, 33, 55, 56, 57, 63, 64, 65, 100, 128, 150, 200] {
+            let w = hx(&vec![0x4e; len]);
+            let mut c = Case::new("acc", scheme, id, "long-strings-and-keys");
+            id += 1;
+            c.keys = keys.clone();
+            c.lines.push("init kind=build calls=udp4:1 signer=0".into());
+            c.lines.push(with_signer(&format!("step op=set_client_info name={w} ver=31 build=none"), 0, false));
+            c.lines.push(with_signer("step op=set_client_info name=4e ver=31 build=none", 0, false));
+            c.lines.push(with_signer(&format!("step op=insert key={w} vt=bytes val=01"), 0, false));
+            c.lines.push("step op=redecode".into());
+            c.lines.push(with_signer(&format!("step op=remove_key key={w}"), 0, false));
+            c.lines.push(with_signer(&format!("step op=insert key=6b vt=strs val={w},31"), 0, false));
+            c.lines.push(with_signer(&format!("step op=insert key=6b vt=bytes val={w}"), 0, false));
+            c.lines.push("step op=redecode".into());
+            cases.push(c);
+            let mut c = Case::new("acc", scheme, id, "long-strings-and-keys");
+            id += 1;
+            c.keys = keys.clone();
+            c.lines.push(format!("init kind=build calls=client:{w}:31:none;raw:{w}:01 signer=0"));
+            c.lines.push("step op=redecode".into());
+            cases.push(c);
+        }
+        // near misses of the identity scheme name
+        for v in ["5634", "763400", "763420", "763430", "007634", "76", "7634", "56", "7635", "763434"] {
+            let mut c = Case::new("acc", scheme, id, "id-near-miss");
+            id += 1;
+            c.keys = keys.clone();
+            c.lines.push("init kind=build calls=udp4:1 signer=0".into());
+            c.lines.push(with_signer(&format!("step op=insert key=6964 vt=bytes val={v}"), 0, false));
+            c.lines.push(with_signer(&format!("step op=insert_raw key=6964 raw={}", hx(&rlp_bytes(&unhx(v)))), 0, false));
+            c.lines.push(with_signer(&format!("step op=remove_insert rm=- ins=6964:{v}"), 0, false));
+            c.lines.push("step op=redecode".into());
+            cases.push(c);
+            let mut c = Case::new("acc", scheme, id, "id-near-miss");
+            id += 1;
+            c.keys = keys.clone();
+            c.lines.push(format!("init kind=build calls=bytes:6964:{v} signer=0"));
+            cases.push(c);
+        }
         // client lists of every arity 0..=6
         for n in 0..=6usize {
             let mut p = Vec::new();
@@ -1333,7 +1422,22 @@ pub fn gen_eq(schemes: &[&str], rng: &mut Rng, thorough: bool, cases: &mut Vec<C
                 rlp_list(&p)
             };
             let (keys, _) = case_keys(scheme, rng);
-            for (a, b) in [(rec(30303, false), rec(30304, false)), (rec(1, false), rec(1, true)), (rec(5, true), rec(5, true))] {
+            // (and the same pairs under another sequence number)
+            let rec_seq = |port: u64, seq: u64| -> Vec<u8> {
+                let base = rec(port, false);
+                // the sequence number is the second item of the list: rebuild with another one
+                let (_, hl, pl) = rlp_peek(&base).unwrap();
+                let payload = &base[hl..hl + pl];
+                let (_, sh, sp) = rlp_peek(payload).unwrap();
+                let after_sig = &payload[sh + sp..];
+                let (_, qh, qp) = rlp_peek(after_sig).unwrap();
+                let mut p = payload[..sh + sp].to_vec();
+                p.extend_from_slice(&rlp_uint(seq));
+                p.extend_from_slice(&after_sig[qh + qp..]);
+                rlp_list(&p)
+            };
+            for (a, b) in [(rec(30303, false), rec(30304, false)), (rec(1, false), rec(1, true)), (rec(5, true), rec(5, true)),
+                           (rec_seq(7, 9), rec_seq(7, 10)), (rec_seq(7, 0), rec_seq(7, 1)), (rec_seq(8, 255), rec_seq(8, 256))] {
                 let mut c = Case::new("eq", scheme, id, "same-signature-different-content");
                 id += 1;
                 c.keys = keys.clone();
